@@ -1802,7 +1802,7 @@ func (patternMatchingSelf PatternMatching) MatchFor(inValue interface{}) interfa
 		maybe := Maybe.Just(inValue)
 		if maybe.IsKind(reflect.Ptr) {
 			ptr := maybe.ToPtr()
-			if reflect.TypeOf(*ptr).Kind() == (reflect.TypeOf(CompData{}).Kind()) {
+			if reflect.TypeOf(*ptr) == reflect.TypeOf(CompData{}) {
 				value = *ptr
 			}
 		}
@@ -1826,8 +1826,8 @@ func (patternSelf KindPatternDef) Matches(value interface{}) bool {
 
 // Matches Match the given value by the pattern
 func (patternSelf CompTypePatternDef) Matches(value interface{}) bool {
-	if Maybe.Just(value).IsPresent() && reflect.TypeOf(value).Kind() == reflect.TypeOf(CompData{}).Kind() {
-		return MatchCompType(patternSelf.compType, (value).(CompData))
+	if compData, ok := (value).(CompData); ok {
+		return MatchCompType(patternSelf.compType, compData)
 	}
 
 	return patternSelf.compType.Matches(value)
